@@ -143,7 +143,8 @@ CHECKS["C18"] = dict(
          "registry.get: the real body is executed over directories of 0..4 files with ABSTRACT contents (glob returns "
          "them out of order; merge_dicts / parse_v2 through their contracts) and its result proved to be the left fold "
          "in file-name order; it is also compared with an independent name-ordered fold of the "
-         "bundled files - exhaustive for this tree - and of a scratch package with order-sensitive overlay files; "
+         "bundled files - exhaustive for this tree - of a scratch package with order-sensitive overlay files, and of "
+         "219 scratch directories (every value kind per file under one key, top level and nested; list / v2 files); "
          "parse_v2 and small-scope merge_dicts enumerations are bounded cross-checks.",
     design_ref="DESIGN.md C18, 0.2",
     note="Proved: the contract of merge_dicts for all dictionaries; the fold of get() for all file contents (number of "
@@ -185,7 +186,8 @@ CHECKS["C15"] = dict(
     text="The functional contracts of the same call trees are proved with the scratch state of the shared algorithm "
          "objects havocked at entry and functools.lru_cache modelled as 'fresh result or result of an earlier call with "
          "an equal key' (history-dependent caches are refuted and replayed with the earlier call as prelude); write "
-         "frames show no call writes registries, arguments or earlier objects; a bounded native run compares ~700 calls - "
+         "frames show no call writes registries, arguments or earlier objects; a bounded native run compares ~1,100 calls "
+         "(incl. near-miss siblings of accepted texts and the same account under every German method) - "
          "each alone on pristine state (forked per call) - with their outcomes under three histories in fresh processes, "
          "and the registries / algorithm objects before and after.",
     design_ref="DESIGN.md C15",
@@ -200,14 +202,18 @@ CHECKS["C12"] = dict(
          "first - and to raise InvalidBankCode exactly for the empty list. candidates_from_bank_code is executed on an "
          "ABSTRACT registry group of any size (sort key, filter, map for one generic entry; sorted() assumed stable) and "
          "again on symbolic groups of bounded size. registry.build_index(accumulate=True) is executed on an ABSTRACT bank "
-         "list (loop body for one generic entry; grouping meta-theorem assumed and cross-checked natively). The bundled "
+         "list (loop body for one generic entry); the generalisation to the whole list - the grouping meta-theorem - is a "
+         "Lean 4 theorem (lemmas/C12.lean: group_loop, group_loop_present, group_loop_sound, group_loop_sublist) re-checked "
+         "by every run and cross-checked natively. The bundled "
          "registry is evaluated exhaustively: all 22,753 keys, 7,769 BICs, unlisted pairs, IBAN-side accessors, "
          "build_index == grouping spec, invertibility.",
     design_ref="DESIGN.md C12, 0.2",
-    note="Unbounded: the selection rule, the candidates list, the per-entry contract of build_index (assumed: sorted() "
-         "stable, grouping meta-theorem). Exhaustive on the bundled data only: invertibility, IBAN-side accessors.",
+    note="Unbounded: the selection rule, the candidates list, the per-entry contract of build_index + the Lean grouping "
+         "theorem (assumed: sorted() stable; that the Lean loop schema - foldl of a guarded append, absent slot = [] - is what "
+         "the Python for-loop does). Exhaustive on the bundled data only: invertibility, IBAN-side accessors.",
     technique="contract-based deductive verification of the real lookup bodies (pyvc abstract lists / bounded symbolic "
-              "groups, z3) + exhaustive evaluation of the lookup contract on the bundled registry")
+              "groups, z3) + Lean 4 lemma for the grouping induction + exhaustive evaluation of the lookup contract on the "
+              "bundled registry")
 CHECKS["C13"] = dict(
     category="proof",
     text="Per country x registry mode x pinned subset (698 variants): the real BBAN.random is executed with the caller's "
